@@ -477,6 +477,9 @@ def _r7_5_queue(ctx: Ctx, f: Func, rule: str, q: str):
                    "positioned atom's row of the bond table", node=cc)
 
 
+_SPEC_FN = [None]
+
+
 def _specialise(e: ast.AST, sd: Dict[str, ast.AST], cnt: Optional[str], n: int, depth: int = 0) -> Optional[ast.AST]:
     """`e` with locals that are bound once expanded to their values and conditional expressions on the neighbour
     count resolved for a count of n; None if a conditional cannot be resolved"""
@@ -510,6 +513,26 @@ def _specialise(e: ast.AST, sd: Dict[str, ast.AST], cnt: Optional[str], n: int, 
                     failed.append(node)
                     return node
                 return r
+            fn_ = _SPEC_FN[0]
+            if isinstance(node.ctx, ast.Load) and node.id != cnt and fn_ is not None and cnt is not None:
+                # a local bound in several branches of tests on the neighbour count: the binding that holds for n
+                defs_ = [s_ for s_ in walk_no_nested(fn_) if isinstance(s_, ast.Assign) and len(s_.targets) == 1
+                         and isinstance(s_.targets[0], ast.Name) and s_.targets[0].id == node.id]
+                if len(defs_) >= 2:
+                    pm_ = parents_map(fn_)
+                    live = []
+                    for d_ in defs_:
+                        gs_ = guards_of(d_, pm_)
+                        vals = [count_test(t_) for t_, _ in gs_]
+                        if gs_ and None not in vals and all(v_ == pol_ for v_, (_, pol_) in zip(vals, gs_)):
+                            live.append(d_)
+                        elif not gs_ or None in vals:
+                            live = None
+                            break
+                    if live is not None and len(live) == 1:
+                        r = _specialise(live[0].value, sd, cnt, n, depth + 1)
+                        if r is not None:
+                            return r
             return node
     out = T().visit(_c.deepcopy(e))
     return None if failed else out
@@ -545,6 +568,7 @@ def r7_4(ctx: Ctx, g: Func, f: Func, rule="R7.4"):
     dirvar = None
     from ..pat import single_defs
     sd_ = single_defs(g.node)
+    _SPEC_FN[0] = g.node
     for s in crosses:
         gs = guards_of(s, pm)
         # which neighbour counts reach this statement?  evaluate the guards for n = 1..6
